@@ -45,7 +45,7 @@ func (i Hash) Bytes() []byte {
 	if start+n > uint32(len(_Hash_text)) {
 		return []byte{}
 	}
-	return _Hash_text[start : start+n]
+	return _Hash_text[start : start+n : start+n]
 }
 
 // ToHash returns a hash Hash for a given []byte. Hash is a uint32 that is associated with the text in []byte. It returns zero if no match found.
